@@ -327,7 +327,7 @@ type worker struct {
 
 func newWorker(pre *prelude) *worker {
 	w := &worker{c: pyrun.New(), pre: pre}
-	if r := w.c.Exec(pre.src, 20*time.Second); r.Outcome() != "ok" {
+	if r := w.c.Exec(pre.src, 10*time.Second); r.Outcome() != "ok" {
 		common.Inconclusive("property=C02 scaffolding does not run: %s %s %s", r.Outcome(), r.Msg, r.Panic)
 	}
 	return w
@@ -351,7 +351,7 @@ func (w *worker) check(rec *Rec) (*divergence, error) {
 		w.c.Close()
 		*w = *newWorker(w.pre)
 	}
-	r := w.c.Exec(src, 20*time.Second)
+	r := w.c.Exec(src, 10*time.Second)
 	obs := observed{Outcome: r.Outcome(), Compile: r.CompileErr, TB: r.TBLines, Site: r.PanicSite, Msg: common.TrimKey(r.Msg+r.Panic, 120)}
 	div := func(label, kind, detail string) (*divergence, error) {
 		return &divergence{Key: "C02|" + label + "|" + kind + "|" + detail, Obs: obs}, nil
@@ -377,7 +377,7 @@ func (w *worker) check(rec *Rec) (*divergence, error) {
 		return div("compile", "compile-error", "obs="+r.Outcome())
 	}
 	// the log and the return value, printed by a second unit so that an escaping exception reaches pyrun untouched
-	r2 := w.c.Exec(report, 20*time.Second)
+	r2 := w.c.Exec(report, 10*time.Second)
 	lines := strings.Split(strings.TrimRight(r2.Stdout, "\n"), "\n")
 	if r2.Outcome() != "ok" || len(lines) != 2 {
 		obs.Log = r2.Stdout
@@ -504,10 +504,16 @@ func main() {
 	metaReady := make(chan struct{})
 	var metaOnce sync.Once
 	st := &stats{seen: map[string]bool{}, labels: map[string]int{}, outcomes: map[string]int{}, leaves: map[string]int{}, ctxs: map[string]int{}, depth: map[int]int{}, bySrc: map[string]int{}}
-	var nCases, nUnrepro int64
+	var nCases, nUnrepro, nTimeouts, nSkipped int64
 	var layoutErr atomic.Value
 
 	runOne := func(w *worker, rec *Rec) {
+		// a run that timed out leaves a goroutine behind that cannot be killed: after a few of them the
+		// remaining cases are skipped (the time-outs themselves are divergences and are reported)
+		if atomic.LoadInt64(&nTimeouts) >= 3 {
+			atomic.AddInt64(&nSkipped, 1)
+			return
+		}
 		d, err := w.check(rec)
 		if err != nil {
 			layoutErr.Store(err.Error())
@@ -517,6 +523,9 @@ func main() {
 		st.add(rec)
 		if d == nil {
 			return
+		}
+		if strings.Contains(d.Key, "|timeout|") {
+			atomic.AddInt64(&nTimeouts, 1)
 		}
 		// re-run once in a fresh context: the long-lived context carries state from earlier programs
 		fw := newWorker(pre)
@@ -645,10 +654,14 @@ func main() {
 	if nUnrepro > 0 {
 		common.Inconclusive("property=C02 %d divergences did not reproduce in a fresh context", nUnrepro)
 	}
+	if nSkipped > 0 {
+		fmt.Printf("%d cases skipped after %d time-outs\n", nSkipped, nTimeouts)
+		rep.Extra["skipped_after_timeouts"] = nSkipped
+	}
 	rep.Evaluations = nCases
 	rep.Traces = nCases
 	rep.Distinct = int64(len(st.seen))
-	rep.Exhaustive = true // within the stated depth bound; the simulate part is a sample
+	rep.Exhaustive = nSkipped == 0 // within the stated depth bound; the simulate part is a sample
 	rep.Extra["tlc"] = tlcInfo
 	rep.Extra["bounds"] = map[string]interface{}{"exhaustive_config": genCfg, "simulate_config": simCfg, "simulate_traces": simTraces,
 		"note": "exhaustive = all programs with <= Depth nested compound contexts around one leaf, all inputs (first MaxIn free); simulate = seeded sample at the next depth"}
@@ -660,7 +673,7 @@ func main() {
 	rep.Extra["cases_by_source"] = st.bySrc
 	// vacuity: every context and every leaf of the specification must have been exercised
 	for _, c := range metaContexts(meta) {
-		if st.ctxs[c] == 0 {
+		if st.ctxs[c] == 0 && nSkipped == 0 {
 			common.Inconclusive("property=C02 context %s never exercised", c)
 		}
 	}
